@@ -163,3 +163,58 @@ def link_fault(kindi: int, follow: int, scenario: int) -> bool:
     out3 = handle(proto, req2())
     view = cmds_of(world.log[mark:])
     return out3[0] == "reply" and out3[1].get("errorcode") == 0 and repaired_first(view, cmdbyte)
+
+
+# ------------------------------------------------------------------ every command as the request that has to repair
+
+FOLLOW_CASES = list(range(len(CASES)))
+
+
+@obligation(tier="quick", parts=len(CASES), timeout=200,
+            part_names=lambda p: "repairing request: %s" % CASES[p][2],
+            bounds="a write / read error (symbolic) on a getPubKey, then EVERY command (partition, both protocol modes) as the next request "
+                   "while the reconnection fails 0..2 times (symbolic): -905 / -2 and no command APDU each time it fails, then the "
+                   "repair (re-open, full bring-up) before the command's first APDU",
+            examples=[(0, dict(kindi=0, fails=1)), (10, dict(kindi=1, fails=2)), (4, dict(kindi=0, fails=0)), (12, dict(kindi=1, fails=1))])
+def repair_by_any_command(kindi: int, fails: int) -> bool:
+    """
+    pre: 0 <= kindi <= 1
+    pre: 0 <= fails <= 2
+    post: _
+    """
+    i = part()
+    cmd, var, name, v1 = CASES[i]
+    DEVERR = -2 if v1 else -905
+    d = c04._device(cmd)
+    proto, dongle, world = make_stack(d, v1=v1)
+    st = {"armed": True}
+
+    def hook(idx, apdu):
+        if st["armed"]:
+            st["armed"] = False
+            raise_fault(KINDS[kindi])
+    world.fault_hook = hook
+    first = valid_request("getPubKey", 1, version=1 if v1 else 5)
+    if handle(proto, first) != ("reply", {"errorcode": DEVERR}):
+        return False
+    left = {"n": fails}
+
+    def connect_hook():
+        if left["n"] > 0:
+            left["n"] -= 1
+            raise comm_exception("No dongle found", 0x6F00)
+    world.connect_hook = connect_hook
+    for _ in range(fails):
+        mark = len(world.log)
+        out = handle(proto, _request(i))
+        view = cmds_of(world.log[mark:])
+        if out != ("reply", {"errorcode": DEVERR}) or any(type(c) is int for c in view):
+            return False
+    mark = len(world.log)
+    out = handle(proto, _request(i))
+    view = cmds_of(world.log[mark:])
+    if out[0] != "reply" or out[1].get("errorcode") != 0:
+        return False
+    # re-open and the full bring-up come before anything else
+    want = (["close"] if fails == 0 else []) + ["open"] + BRINGUP
+    return view[:len(want)] == want and len(view) > len(want)
